@@ -9,6 +9,7 @@ e R-KEYS    every id prefix the package emits is recognised by the header parser
 f           fusion source lookup keeps the first gene's ids when both transcripts share a gene
 """
 import ast
+import re
 from sa.model import unparse, norm_stmt, call_name, kwarg, walk_no_nested, AnalysisError, str_consts
 from sa.cfg import CFG, iteration_paths
 from sa import guards as G
@@ -270,3 +271,29 @@ def run(chk, repo):
     from rules.shared import optname
     chk.clauses.append('C18.i (shared R-THREAD) an option value bound to a name that is itself a CLI option carries that very option')
     optname(chk, repo, 'C18.i', ['cli.split_fasta', 'cli.merge_fasta', 'cli.encode_fasta', 'cli.summarize_fasta'], floor=0)
+    # ------------------------------------------------------------------ j: pools are only grown through add_peptide
+    chk.rule('C18.j', 'R-OWNER: the record set of a peptide pool is written only by VariantPeptidePool itself (merging keeps every header entry)', 1)
+    chk.clauses.append('C18.j outside VariantPeptidePool nothing writes a pool\'s record set directly: records of a further file enter through add_peptide, '
+                       'which merges the header entries of equal sequences (a set union would drop them)')
+    offenders = []
+    n_sites = 0
+    for f_ in repo.funcs_in('aa', 'cli'):
+        if f_.qual.startswith('aa.VariantPeptidePool:VariantPeptidePool.'):
+            continue
+        for n in ast.walk(f_.node):
+            tgt = None
+            if isinstance(n, ast.AugAssign):
+                tgt = n.target
+            elif isinstance(n, ast.Assign) and len(n.targets) == 1 and isinstance(n.targets[0], ast.Attribute):
+                tgt = n.targets[0]
+            elif isinstance(n, ast.Call) and isinstance(n.func, ast.Attribute) and n.func.attr in ('update', 'add', 'union', 'discard', 'remove', 'clear', 'difference_update', 'intersection_update'):
+                tgt = n.func.value
+            if tgt is None:
+                continue
+            t_ = unparse(tgt)
+            if t_.endswith('.peptides.peptides') or re.fullmatch(r'(pool|\w*_pool|second_pool)\.peptides', t_):
+                n_sites += 1
+                if not (isinstance(n, ast.Assign) and isinstance(n.value, ast.Call) and call_name(n.value) in ('set', 'VariantPeptidePool')):
+                    offenders.append(f"{f_.qual}: {unparse(n)[:70]}")
+    chk.ob('C18.j', 'no direct write to a pool record set outside VariantPeptidePool', 'moPepGen/aa/VariantPeptidePool.py:1', not offenders,
+           f"pool record sets written directly: {offenders}: peptides present in two inputs keep only the header entries of the first", key='aa::pool-owner')
